@@ -34,15 +34,29 @@ harness! {
 // (b) sliding depends on the occupancy only through `occ & mask`      [geometry lemma, all 2^64]
 // (c) rook == slide_ref on every subset of every mask                [exhaustive native evaluation]
 // hence rook(sq, occ) = rook(sq, occ&mask) = slide(sq, occ&mask) = slide(sq, occ).
-harness! {
-    fn c15_rook_reads_only_masked_occupancy() {
-        let (i, c) = any_sq();
-        let occ = vk::any_u64();
-        let mask = MAGIC_ROOK[i as usize].mask;
-        assert!(rook(c, Bitboard::from_raw(occ)) == rook(c, Bitboard::from_raw(occ) & mask));
-        let maskb = MAGIC_BISHOP[i as usize].mask;
-        assert!(bishop(c, Bitboard::from_raw(occ)) == bishop(c, Bitboard::from_raw(occ) & maskb));
-    }
+// (a) per square (constant square => the lookup region is one <= 4096-entry slice); the two index
+// computations are isomorphic circuits over equal inputs, so no multiplication reasoning is needed
+macro_rules! rook_masked_sq {
+    ($($name:ident = $sq:expr),* $(,)?) => { $(
+        harness! {
+            fn $name() {
+                let occ = Bitboard::from_raw(vk::any_u64());
+                let c = unsafe { Coord::from_index_unchecked($sq) };
+                let mask = MAGIC_ROOK[$sq].mask;
+                assert!(rook(c, occ) == rook(c, occ & mask));
+            }
+        }
+    )* };
+}
+rook_masked_sq! {
+    c15_rook_masked_sq00 = 0, c15_rook_masked_sq01 = 1, c15_rook_masked_sq02 = 2, c15_rook_masked_sq03 = 3, c15_rook_masked_sq04 = 4, c15_rook_masked_sq05 = 5, c15_rook_masked_sq06 = 6, c15_rook_masked_sq07 = 7,
+    c15_rook_masked_sq08 = 8, c15_rook_masked_sq09 = 9, c15_rook_masked_sq10 = 10, c15_rook_masked_sq11 = 11, c15_rook_masked_sq12 = 12, c15_rook_masked_sq13 = 13, c15_rook_masked_sq14 = 14, c15_rook_masked_sq15 = 15,
+    c15_rook_masked_sq16 = 16, c15_rook_masked_sq17 = 17, c15_rook_masked_sq18 = 18, c15_rook_masked_sq19 = 19, c15_rook_masked_sq20 = 20, c15_rook_masked_sq21 = 21, c15_rook_masked_sq22 = 22, c15_rook_masked_sq23 = 23,
+    c15_rook_masked_sq24 = 24, c15_rook_masked_sq25 = 25, c15_rook_masked_sq26 = 26, c15_rook_masked_sq27 = 27, c15_rook_masked_sq28 = 28, c15_rook_masked_sq29 = 29, c15_rook_masked_sq30 = 30, c15_rook_masked_sq31 = 31,
+    c15_rook_masked_sq32 = 32, c15_rook_masked_sq33 = 33, c15_rook_masked_sq34 = 34, c15_rook_masked_sq35 = 35, c15_rook_masked_sq36 = 36, c15_rook_masked_sq37 = 37, c15_rook_masked_sq38 = 38, c15_rook_masked_sq39 = 39,
+    c15_rook_masked_sq40 = 40, c15_rook_masked_sq41 = 41, c15_rook_masked_sq42 = 42, c15_rook_masked_sq43 = 43, c15_rook_masked_sq44 = 44, c15_rook_masked_sq45 = 45, c15_rook_masked_sq46 = 46, c15_rook_masked_sq47 = 47,
+    c15_rook_masked_sq48 = 48, c15_rook_masked_sq49 = 49, c15_rook_masked_sq50 = 50, c15_rook_masked_sq51 = 51, c15_rook_masked_sq52 = 52, c15_rook_masked_sq53 = 53, c15_rook_masked_sq54 = 54, c15_rook_masked_sq55 = 55,
+    c15_rook_masked_sq56 = 56, c15_rook_masked_sq57 = 57, c15_rook_masked_sq58 = 58, c15_rook_masked_sq59 = 59, c15_rook_masked_sq60 = 60, c15_rook_masked_sq61 = 61, c15_rook_masked_sq62 = 62, c15_rook_masked_sq63 = 63,
 }
 harness! {
     #[kani::unwind(9)]
